@@ -215,6 +215,43 @@ fn gen_loop(t: &mut Tape, cfg: &LoopCfg, k: usize, inner: Option<usize>) -> Loop
   LoopFn { text, call }
 }
 
+/// a loop whose variables feed each other: every next value is another variable, a small expression
+/// of them or of the counter (delay lines `f(n - 1, g(n), x, y)`, rotations `f(n - 1, b, c, a)`,
+/// swaps); only one of them is returned, so the others are live only through the chain
+fn gen_shuffle_loop(t: &mut Tape, cfg: &LoopCfg, k: usize) -> LoopFn {
+  let vars = ["a", "b", "c", "d"];
+  let nv = 2 + t.choose(3);
+  let derived_iv = cfg.derived_iv;
+  let pick = |t: &mut Tape| -> String {
+    // (a next value that is linear in the counter is the recorded derived-induction-variable finding)
+    match t.weighted(&[10, 2, if derived_iv { 2 } else { 0 }, 2, 1, 1]) {
+      0 => vars[t.choose(nv)].to_string(),
+      1 => "n * n".to_string(),
+      2 => "n".to_string(),
+      3 => format!("{} + {}", vars[t.choose(nv)], vars[t.choose(nv)]),
+      4 => format!("{} + 1", vars[t.choose(nv)]),
+      _ => lit(t.int_in(-3, 9) as i32),
+    }
+  };
+  let nexts: Vec<String> = (0..nv).map(|_| pick(t)).collect();
+  let ret = match t.weighted(&[6, 2]) {
+    0 => vars[t.choose(nv)].to_string(),
+    _ => format!("{} - {}", vars[t.choose(nv)], vars[t.choose(nv)]),
+  };
+  let params = (0..nv).map(|i| format!("{}: int", vars[i])).collect::<Vec<_>>().join(", ");
+  let base_first = t.bool(1, 2);
+  let call = format!("Main.shuffle{k}(n - 1, {})", nexts.join(", "));
+  let text = if base_first {
+    format!("  function shuffle{k}(n: int, {params}): int =\n    if n <= 0 {{ {ret} }} else {{ {call} }}\n\n")
+  } else {
+    format!("  function shuffle{k}(n: int, {params}): int =\n    if n > 0 {{ {call} }} else {{ {ret} }}\n\n")
+  };
+  let trips = [0, 1, 2, 3, 4, 5, 7, 12][t.choose(8)];
+  let args = (0..nv).map(|i| arg(t, [9, 200, 4, 1][i] + 0)).collect::<Vec<_>>().join(", ");
+  let call = format!("Main.shuffle{k}({}, {args})", arg(t, trips));
+  LoopFn { text, call }
+}
+
 /// a whole program: loop functions and a main that prints each result
 pub fn gen_loop_program(t: &mut Tape, cfg: &LoopCfg) -> String {
   let n = 1 + t.choose(cfg.max_loops);
@@ -224,6 +261,9 @@ pub fn gen_loop_program(t: &mut Tape, cfg: &LoopCfg) -> String {
     // bounded only if it counts from 0 up to b with stride 1 - provided as loop<k> specialised below
     let inner = if k > 0 && t.bool(1, 3) { Some(100 + k) } else { None };
     fns.push((gen_loop(t, cfg, k, inner), inner));
+  }
+  for k in 0..t.weighted(&[3, 2, 1]) {
+    fns.push((gen_shuffle_loop(t, cfg, 50 + k), None));
   }
   let mut s = String::from("class Main {\n");
   for (f, inner) in &fns {
